@@ -95,8 +95,8 @@ def _subclasscheck_frozenset(cls, subcls):
     if not cls_args:
         return True
 
-    if not subcls_args:
-        return cls_args[0] is typing.Any
+    if not subcls_args:  # subcls is base Tuple, i.e. Tuple[Any, ...]
+        return cls_args == (typing.Any, Ellipsis)
 
     return len(subcls_args) == len(cls_args) == 1 and all(
         deep_issubclass(a, b) for a, b in zip(subcls_args, cls_args)
@@ -116,8 +116,8 @@ def _subclasscheck_tuple(cls, subcls):
     if not cls_args:  # cls is base Tuple
         return True
 
-    if not subcls_args:
-        return cls_args[0] is typing.Any
+    if not subcls_args:  # subcls is base Tuple, i.e. Tuple[Any, ...]
+        return cls_args == (typing.Any, Ellipsis)
 
     if cls_args[-1] is Ellipsis:  # cls variadic
         if subcls_args[-1] is Ellipsis:  # both variadic
